@@ -47,6 +47,8 @@ type SrvWorld struct {
 	started    chan struct{}
 	finalTries int
 	lossFree   bool
+	authMu     sync.Mutex
+	users      map[string]string // the operator's user table as of now
 }
 
 type PeerActor struct {
@@ -181,13 +183,18 @@ func (w *SrvWorld) authHandler() turn.AuthHandler {
 	case "turnrest":
 		return turn.LongTermTURNRESTAuthHandler(cfg.Secret, w.LF.NewLogger("auth"))
 	}
-	users := map[string]string{}
+	w.authMu.Lock()
+	w.users = map[string]string{}
 	for _, u := range cfg.Users {
-		users[u.Name] = u.Pass
+		w.users[u.Name] = u.Pass
 	}
+	w.authMu.Unlock()
 	return func(ra *turn.RequestAttributes) (string, []byte, bool) {
 		w.K.Yield("cb:Auth", ra.Username)
-		pass, ok := users[ra.Username]
+		// the operator's user table can change while allocations live (op "rotate")
+		w.authMu.Lock()
+		pass, ok := w.users[ra.Username]
+		w.authMu.Unlock()
 		if !ok {
 			return "", nil, false
 		}
@@ -577,6 +584,32 @@ func (w *SrvWorld) exec(op *Op) {
 	}
 	switch op.Kind {
 	case "wait":
+	case "rotate":
+		// the operator changes (A.S != "") or removes (A.S == "") a user's password; clients
+		// named in A.Peers are told the new one, the others go on signing with the old one
+		w.authMu.Lock()
+		if op.A.S == "" {
+			delete(w.users, op.A.User)
+		} else {
+			w.users[op.A.User] = op.A.S
+		}
+		w.authMu.Unlock()
+		if !w.K.Free {
+			w.Mon.mu.Lock()
+			if op.A.S == "" {
+				delete(w.Mon.users, op.A.User)
+			} else {
+				w.Mon.users[op.A.User] = op.A.S
+			}
+			w.Mon.mu.Unlock()
+		}
+		for _, id := range op.A.Peers {
+			if c := w.Clients[id]; c != nil && op.A.S != "" {
+				c.mu.Lock()
+				c.Spec.Pass = op.A.S
+				c.mu.Unlock()
+			}
+		}
 	case "srv_close":
 		w.closeServer()
 	default:
